@@ -74,7 +74,9 @@ TRUSTED_BASE = ["'interfaces a specification implies = interfaces reachable thro
 ASSUMPTIONS = ["declaration arguments are interfaces, Declaration / Provides / ClassProvides objects and nested tuples of them "
                "and `Interface` itself (interface 0 of every case) — all generated and modelled, including the *only* forms, "
                "which keep a Declaration argument un-normalised as one opaque element of `declared`; NOT generated, omitted "
-               "from the model: Implements objects (class specifications, live nodes of the graph) as declaration arguments",
+               "from the model: Implements objects (class specifications, live nodes of the graph) as declaration arguments; "
+               "an *only* form ALL of whose arguments are Declaration objects (HEAD keeps even an empty Declaration as an "
+               "element, so `declared` is truthy while naming no interface — the model reads emptiness off the interfaces)",
                "metaclasses (custom, possibly falsy, implementing interfaces) are fixed during a history: no declaration "
                "calls on a metaclass; class __bases__ are never reassigned",
                "generated and modelled: lazy creation of specifications with queries at any point, built-in types and their "
@@ -286,7 +288,10 @@ class _Sim:
         rng = self.rng
         l = list(l)
         targets = [("i", o) for o in self.live_insts()] + [("c", c) for c in range(len(self.cbases))]
-        if targets and rng.random() < 0.22:
+        # an *only* form keeps a Declaration argument as an element of ``declared`` even when it names no
+        # interface (``declared`` is then truthy but empty of interfaces, which only matters for the
+        # ``Interface`` special case): such a call gets a Declaration argument only next to an interface
+        if targets and rng.random() < 0.22 and (l or not only):
             l.insert(rng.randrange(len(l) + 1), {"dpb": list(rng.choice(targets))})
             self.tags.add("arg-directlyProvidedBy")
         own = sorted(t for t in self.own if t[0] == "c" or self.live[t[1]])
